@@ -16,8 +16,14 @@ Members(G, role) == {i \in 1..Len(G.members) : G.members[i].role = role}
 Fin(G, i) == G.members[i].fin
 
 (* C09: the paused run R and its de-paused twin (R's own reports without the pause/resume) *)
+(* The twin replays only the paused run's reports.  If the paused run failed, work that was held  *)
+(* back may still be in flight in the twin (fail-fast); otherwise a twin that is not at rest has  *)
+(* started work the paused run never ran (with-items window after a failed item) and the two     *)
+(* are not comparable.                                                                         *)
+Comparable(G, p, t) == Fin(G, t).rest \/ Fin(G, p).wf = "failed"
 C09_same_status(G) ==
-  \A p \in Members(G, "paused"), t \in Members(G, "twin") : Fin(G, p).wf = Fin(G, t).wf
+  \A p \in Members(G, "paused"), t \in Members(G, "twin") :
+     Comparable(G, p, t) => Fin(G, p).wf = Fin(G, t).wf
 C09_same_success(G) ==
   \A p \in Members(G, "paused"), t \in Members(G, "twin") :
      (Fin(G, p).wf = "succeeded" /\ Fin(G, t).wf = "succeeded") =>
@@ -75,8 +81,17 @@ KF_C06_inherited_delta_after_newer(G) ==
           /\ Fin(G, a).wf = "succeeded" /\ Fin(G, b).wf = "succeeded"
           /\ o \in DOMAIN Fin(G, a).out /\ o \in DOMAIN Fin(G, b).out /\ Fin(G, a).out[o] # Fin(G, b).out[o]
 
+(* S2 for a paused run and its twin: more inbound branches than the join: N needs have run, so  *)
+(* how many of them are merged before the join starts depends on timing (the pause delays it)   *)
+KF_C07_late_arrival_pause(G) ==
+  \E j \in TaskNames(G.def) :
+     /\ IsJoin(G.def, j) /\ Need(G.def, j) < Cardinality(Inbound(G.def, j))
+     /\ \E m \in 1..Len(G.members) :
+          Cardinality({p \in Inbound(G.def, j) : Cnt(Fin(G, m).execd, p) > 0}) > Need(G.def, j)
+
 GroupSignatures(G) ==
   (IF G.kind = "order" /\ KF_C07_late_arrival_after_fire(G) THEN {"KF_C07_late_arrival_after_fire"} ELSE {}) \cup
+  (IF G.kind = "pause" /\ KF_C07_late_arrival_pause(G) THEN {"KF_C07_late_arrival_after_fire"} ELSE {}) \cup
   (IF G.kind = "order" /\ KF_C06_inherited_delta_after_newer(G) THEN {"KF_C06_inherited_delta_after_newer"} ELSE {})
 
 Rel(G) ==
